@@ -14,6 +14,10 @@ RULE = ("K: random nested values (TreeClass instances of three harness classes w
         "A dedicated stream (96 quick cases) always generates paths that end in, or pass through, a dict key that does not exist yet, "
         "on dicts nested 1-3 levels below plain and frozen fields (through dicts and lists), with create_new_ok on (3/4) and off. "
         "The deep value+identity+key-set snapshot of the original is compared before/after in EVERY case, error cases included. "
+        "A render stream (200 quick) draws operation lists (identifiers incl. keywords/dunders, indices incl. negative and 20-digit, keys "
+        "with blanks, \"->\", empty; every 4th list contains a name outside the well-formedness predicate), lets the MODEL render the path, "
+        "checks it equals the Python rendering, and feeds it to the real _parse_operations and to the model parser: same result, and the "
+        "original operations for well-formed lists. "
         "non-trivial = path of length >= 2 or any perturbed/malformed case.")
 
 _env = None
@@ -503,6 +507,86 @@ def make_case(ctx, rng, i):
     return case
 
 
+# --------------------------------------------------------------------------- parser round trip (render -> parse)
+IDENTS = ["a", "b2", "_x", "cfg", "class", "A9", "__init__", "gradient_config", "x_1", "Z"]
+BAD_ATTRS = ["a b", "1a", "a-b", "a->b", "a[0]", "", "a.b", "a'"]
+GOOD_KEYS = ["k", "", "a b", "a->b", "->", " x ", "0", "-1", "name.with.dots", "it\"s", "a>b", "-"]
+BAD_KEYS = ["a]b", "a[b", "it's", "']", "[", "''"]
+
+
+def py_render(ops):
+    return "->".join(o[1] if o[0] == "attr" else ("[%d]" % o[1] if o[0] == "idx" else "['%s']" % o[1]) for o in ops)
+
+
+def op_token(o):
+    return ("a" + o[1].encode().hex()) if o[0] == "attr" else (("i%d" % o[1]) if o[0] == "idx" else "k" + o[1].encode().hex())
+
+
+def py_wf(o):
+    if o[0] == "attr":
+        return o[1].isidentifier()
+    if o[0] == "key":
+        return not any(c in o[1] for c in "'[]")
+    return True
+
+
+def gen_ops(rng, allow_bad):
+    n = rng.randint(1, 6)
+    ops = []
+    for _ in range(n):
+        k = rng.randint(0, 2)
+        if k == 0:
+            ops.append(("attr", rng.choice(IDENTS)))
+        elif k == 1:
+            ops.append(("idx", rng.choice([0, 1, 7, 10, 99, 100, 12345678901234567890, -1, -10, -305, rng.randint(-50, 50)])))
+        else:
+            ops.append(("key", rng.choice(GOOD_KEYS)))
+    if allow_bad:
+        j = rng.randint(0, n - 1)
+        ops[j] = ("attr", rng.choice(BAD_ATTRS)) if rng.chance(0.5) else ("key", rng.choice(BAD_KEYS))
+    return ops
+
+
+def render_stream(ctx, n):
+    """model render -> real parser and model parser; for well-formed ops both must give the ops back"""
+    cases = [gen_ops(ctx.rng, allow_bad=(i % 4 == 3)) for i in range(n)]
+    reps = ctx.driver.ask_many(["render " + " ".join(op_token(o) for o in ops) for ops in cases])
+    paths = []
+    for ops, rep in zip(cases, reps):
+        case = {"stream": "render", "ops": [list(o) for o in ops]}
+        wf = all(py_wf(o) for o in ops)
+        tag, hexpath = rep.split(" ")
+        path = bytes.fromhex(hexpath[1:]).decode()
+        paths.append(path)
+        ctx.expect_equal("render-wf", case, "ok" if wf else "not-wf", tag)
+        ctx.expect_equal("render-path", case, py_render(ops), path)
+        got = impl_parse(path)
+        want = [op_token(o) for o in ops]
+        ctx.case(nontrivial=("render", tuple(want)), kind="render-wf" if wf else "render-not-wf",
+                 status="parse-error" if got is None else "ok", pathlen=len(ops))
+        ctx.impl_property_evals += 1
+        d = render_property(case)
+        if d:
+            ctx.violation(case, d)
+    reps = ctx.driver.ask_many(["parse " + hx(p) for p in paths])
+    for ops, path, rep in zip(cases, paths, reps):
+        got = impl_parse(path)
+        ctx.expect_equal("parse-rendered", {"stream": "render", "ops": [list(o) for o in ops]},
+                         "parse-error" if got is None else " ".join(["ok"] + got), rep)
+
+
+def render_property(case):
+    """the documented syntax is read back: _parse_operations(render(ops)) == ops for well-formed ops"""
+    ops = [tuple(o) for o in case["ops"]]
+    if not all(py_wf(o) for o in ops):
+        return None
+    got = impl_parse(py_render(ops))
+    want = [op_token(o) for o in ops]
+    if got != want:
+        return f"_parse_operations({py_render(ops)!r}) = {got}, rendered from {ops}"
+    return None
+
+
 def make_dictkey_case(rng, i):
     """dedicated stream: a path that ends in (or passes through) a dict key that does not exist yet, on dicts nested
     1-3 levels deep below plain and frozen fields, with create_new_ok on and off"""
@@ -575,10 +659,23 @@ def run(ctx):
         if d:
             ctx.violation(case, d)
     flush_model(ctx, pend)
+    render_stream(ctx, ctx.scale(200, 2000))
 
 
 # ------------------------------------------------------------------------------------------- S
 def search(ctx, hints):
+    for h in hints:
+        if isinstance(h, dict) and h.get("stream") == "render":
+            d = render_property(h)
+            if d:
+                ctx.violation(h, d)
+                return
+    for i in range(400):
+        case = {"stream": "render", "ops": [list(o) for o in gen_ops(ctx.rng, False)]}
+        d = render_property(case)
+        if d:
+            ctx.violation(case, d)
+            return
     for h in hints:
         if isinstance(h, dict) and "root" in h:
             d, _ = evaluate(ctx, h)
@@ -609,5 +706,7 @@ def search(ctx, hints):
 
 
 def replay(ctx, inp):
+    if inp.get("stream") == "render":
+        return render_property(inp)
     d, _ = evaluate(ctx, inp)
     return d
